@@ -92,6 +92,10 @@ func (in *Interp) intrinsic(fn *ssa.Function, args []Value, site *ssa.Call) (Val
 	}
 	switch full {
 	// ----- bytes / strings / bytealg -----
+	case "crypto/subtle.ConstantTimeCompare":
+		// functional contract: 1 iff same length and same bytes (timing is not modelled)
+		in.stub(full)
+		return ts.Ite(in.seqEq(in.viewOf(args[0]), in.viewOf(args[1])), ts.Const(64, 1), ts.Const(64, 0)), true
 	case "bytes.Equal", "internal/bytealg.Equal":
 		in.stub(full)
 		return in.seqEq(in.viewOf(args[0]), in.viewOf(args[1])), true
